@@ -2,6 +2,12 @@
 """Regenerates MANIFEST.json from the table below (kept in one place so it stays valid)."""
 import json
 CLAIMED = {
+ "C07": dict(tech="model checking (small-scope exhaustive enumeration): every byte string up to a length as a frame stream x tails x role x compression, structured hostile frame sequences, every prefix / grammar variant of Dial and CONNECT replies, every short string over a separator alphabet as request header values - all on the real code",
+             text="Oracle: no panic (recovered and attributed), every call returns, the read loop needs at most bytes+3 calls, allocation (TotalAlloc, single goroutine) <= 1 MiB + 1100 x bytes fed, delivered bytes proportional to received bytes.",
+             note="inputs longer than the stated bounds that share no structure with the enumerated ones are outside the claim", ref="§4 C07"),
+ "C18": dict(tech="model checking: complete enumeration of the dial configuration matrix on the real Dialer against in-process HTTP/HTTPS CONNECT proxies, a SOCKS5 server and TLS back-ends over deterministic synchronous pipes; every peer logs what it saw",
+             text="Proxy sees exactly one CONNECT host:port (defaults 80/443) with Basic auth iff a password is present; SOCKS5 equivalent; non-200 aborts with an error and nothing is sent on; wss requests arrive only inside a TLS session verified for the URL host on every path; wrong-host / untrusted certificates fail; first hop uses the applicable hook; backend never dialed directly when a proxy is configured.",
+             note="cells needing the real network (no NetDial/NetDialContext with a plain first hop) are not enumerated; crypto/tls and x/net/proxy trusted", ref="§4 C18"),
  "C15": dict(tech="model checking: complete enumeration of EnableCompression pairs x client offers x server replies on the real Dialer/Upgrader (in-process handshake) followed by message flow under every sequence of <=3 write-compression setting calls; compression state observed behaviourally",
              text="Both ends' 'accepts compressed' (verdict on a conformant RSV1 message from the independent encoder) and 'compresses' (RSV1 on a message written with compression enabled) must equal 'the 101 announced permessage-deflate with both no_context_takeover parameters'; all messages round-trip under every toggle sequence.",
              note="a connection is never required to compress", ref="§4 C15"),
